@@ -51,13 +51,17 @@ Definition spec_front (blocks : list (list nat)) (executed : list nat) : list na
                            (seq 0 j))
          (seq 0 (length blocks)).
 
-(* reachability in an edge list, bounded depth *)
-Fixpoint reach (E : list (nat * nat)) (fuel i j : nat) : bool :=
-  Nat.eqb i j ||
+(* reachability in an edge list: breadth-first closure, [fuel] rounds *)
+Definition add_new (acc new : list nat) : list nat :=
+  fold_left (fun a x => if mem x a then a else a ++ [x]) new acc.
+Definition succs (E : list (nat * nat)) (l : list nat) : list nat :=
+  flat_map (fun e => if mem (fst e) l then [snd e] else []) E.
+Fixpoint reach_set (E : list (nat * nat)) (fuel : nat) (l : list nat) : list nat :=
   match fuel with
-  | O => false
-  | S f => existsb (fun e => Nat.eqb (fst e) i && reach E f (snd e) j) E
+  | O => l
+  | S f => reach_set E f (add_new l (succs E l))
   end.
+Definition reach (E : list (nat * nat)) (fuel i j : nat) : bool := mem j (reach_set E fuel [i]).
 
 (* a valid transitive reduction E' of E: a subset with the same reachability *)
 Definition tr_okb (E E' : list (nat * nat)) : bool :=
